@@ -1,0 +1,16 @@
+//go:build verif
+
+// Contracts for the deductive verifier in /verif (govc), helper "cpc2": callees of NewEVM (C17, exposure half). This file
+// contains no code: with the build tag off it is not part of the package, with it on it adds nothing to the build.
+package keeper
+
+//@ import sdk "github.com/cosmos/cosmos-sdk/types"
+//@ import corevm "github.com/ethereum/go-ethereum/core/vm"
+
+// GetHashFn only builds a closure over (k, ctx); the closure is run by the interpreter (BLOCKHASH), not here.
+// TRUSTED summary (the block-hash function itself belongs to C01).
+//@ func (k Keeper) GetHashFn(ctx sdk.Context) corevm.GetHashFunc
+//@   assumed
+//@   modifies nothing
+//@   ensures result != nil
+//@   panics never
